@@ -31,6 +31,9 @@ structure St where
   ts : List MTrie
   /-- root hashes that were persisted by a `wd` (ghost: where the specification applies) -/
   persisted : List Bytes
+  /-- ghost: some `PutIntoChild` gave a child trie the root hash of ANOTHER child trie of the same
+      trie (region of the known finding `child-tries-equal-content`) -/
+  aliased : Bool := false
 
 def St.init : St := { hp := Heap.empty, db := [], ts := [MTrie.empty], persisted := [] }
 
@@ -76,7 +79,11 @@ def stepModel (H : Bytes → Bytes) (s : St) : Op → St × String × Bool
     | some m =>
       match m.putIntoChild H s.hp c k v with
       | none => (s, "panic", true)
-      | some r => (s.setTrie r.1 h r.2, "ok", false)
+      | some r =>
+        -- two keys of the main trie now name the same child root hash
+        let names := (keysWithBytePrefix r.1 r.2.t.root childPrefix).map (fun key => get r.1 r.2.t.root key)
+        let dup := names.any (fun a => (names.filter (fun b => a == b)).length > 1)
+        ({ s.setTrie r.1 h r.2 with aliased := s.aliased || dup }, "ok", false)
   | .snap h =>
     match s.ts[h]? with
     | none => (s, "bad-op", false)
@@ -145,6 +152,13 @@ def runFrom (H : Bytes → Bytes) (s : St) : List Op → List (String × String)
     if x.2.2 then [(x.2.1, sp)] else (x.2.1, sp) :: runFrom H x.1 r
 
 def run (H : Bytes → Bytes) (ops : List Op) : List (String × String) := runFrom H St.init ops
+
+/-- some trie of the run had two child tries with equal contents (equal root hashes) -/
+def runAliased (H : Bytes → Bytes) (s : St) : List Op → Bool
+  | [] => s.aliased
+  | op :: r =>
+    let x := stepModel H s op
+    if x.2.2 then x.1.aliased else runAliased H x.1 r
 
 /-! ### parsing -/
 
